@@ -890,6 +890,30 @@ pub fn run(ctx: &mut Ctx, replay: Option<&str>) {
             let mut r = ctx.rng.fork(0x1_0000_0000 + i as u64);
             holder_hs.push(gen_holder_history(&mut r, ctx.tier));
         }
+        // histories whose failing calls fail DEEP inside the claims (a reserved name at the bottom of a chain of objects and
+        // arrays, or a bad path after deep paths), again and again, before a call that must succeed: whatever a failing call
+        // leaves behind adds up over the history
+        for i in 0..ctx.tier.pick(12, 120) {
+            let mut r = ctx.rng.fork(0x2_0000_0000 + i as u64);
+            let (key, alg) = gen_issuer_key(&mut r);
+            let mut calls = vec![];
+            let total = 8;
+            let fails = if i % 3 == 0 { 7 } else { r.range(4, 6) };
+            for c in 0..total {
+                let depth = r.range(40, 62);
+                let failing = c < fails;
+                let mut v = if failing { json!({"leaf": 1, (if r.chance(1, 2) { "_sd" } else { "..." }): ["x"]}) } else { json!({"leaf": 1, "other": [1, {"k": null}]}) };
+                for d in 0..depth {
+                    v = if (d + i) % 3 == 0 { json!([v]) } else { json!({"lvl": v, "side": d}) };
+                }
+                let claims = json!({"iss": "https://issuer.example", "exp": now() + 100000, "chain": v});
+                let strategy = match (c + i) % 3 { 0 => Strategy::All, 1 => Strategy::Top, _ => Strategy::None };
+                let a = IssueArgs { claims, strategy, holder: gen_holder_key(&mut r), decoy: r.chance(1, 2), fmt: if r.chance(1, 2) { Fmt::Compact } else { Fmt::Json }, key, alg: alg.clone(), queue: None };
+                calls.push(ICall { args: a, class: if failing { "reserved_name" } else { "ok" }.to_string() });
+            }
+            issuer_hs.push(IssuerHistory { key, alg, calls });
+            ctx.count("issuer_history.deep_failures_then_success");
+        }
     }
     let mut reqs = vec![];
     let mut iruns = vec![];
